@@ -102,7 +102,7 @@ def run_actions(kind: str, variant: str, max_remote: int, timeout: int, actions:
             elif base == "Tick":
                 rig.tick()
             elif base in ("NodeOff", "NodeOn", "ServiceStop", "ServiceStart"):
-                rig.power(base, args[0])
+                rig.power(base, args[0], *(args[1:2]))
             else:
                 raise tlc.TLCError(f"no binding for action {base}")
     except tlc.TLCError:
@@ -246,6 +246,17 @@ def main(tier: str, seed: int) -> int:
         nontrivial = any(e["ev"] == "RemoteLogin" and e["ok"] for e in tr["ev"])
         chk.add_case({"kind": kind, "variant": variant, "cfg": [tr["cfg"]["maxRemote"], tr["cfg"]["timeout"]],
                       "acts": tr["stimulus"]["actions"]}, nontrivial=nontrivial)
+    # directed: what ends a session must end it whichever of the services a session depends on happens to be stopped
+    for svc in ("user-session-manager", "terminal", "user-manager"):
+        for ender in (["ChangePassword", "admin", "p", "q"], ["Tick"], ["Logoff", "b"]):
+            for kind in (SERVER_KINDS[0],):
+                seq = [["RemoteLogin", "b", "admin", "p"], ["RemoteCommand", "b"], ["RemoteLogin", "c", "admin", "p"],
+                       ["ServiceStop", "srv", svc], ender, ["Tick"], ["ServiceStart", "srv", svc], ["RemoteCommand", "b"], ["RemoteCommand", "c"],
+                       ["RemoteLogin", "b", "admin", "p"], ["RemoteCommand", "b"]]
+                tr = run_actions(kind, "full", 3, 1 if ender == ["Tick"] else 8, seq)
+                tr["meta"]["directed"] = f"{svc}/{ender[0]}"
+                traces.append(tr)
+                chk.add_case({"kind": kind, "directed": f"stop {svc}, {ender[0]}, start", "acts": seq}, nontrivial=True)
     # 3. code -> spec: TLC judges the recorded histories
     res = tlc.validate("SessionsTrace", traces)
     common.judge_traces(chk, "Sessions", traces, res, sig_fn)
